@@ -289,7 +289,10 @@ def _e2e_worker(payload):
     K = 4
     sizes = symbol_bytes(K)
 
-    async def one(chunks):
+    async def one(chunks, eager=False):
+        # eager: the transport is fast and the database is slow - bytes are delivered as soon as they are written, while the
+        # sender's add_event is still running, and every COMMIT takes a tenth of a second.  An id must not reach the other
+        # workers before they can see the event.
         with C.Scratch() as d:
             wire_up = {1: bytearray(), 2: bytearray()}
             wire_down = {1: bytearray(), 2: bytearray()}
@@ -314,6 +317,23 @@ def _e2e_worker(payload):
                 for w in (1, 2):
                     sts[w] = await D.open_storage("sql", d, num_concurrent_adds=1)
                     await orig_sleep(0.01)
+                pump_task = None
+                if eager:
+                    import time as _time
+                    import sqlalchemy as _sa
+
+                    for w in (1, 2):
+                        _sa.event.listen(sts[w].db.sync_engine, "commit", lambda conn: _time.sleep(0.1))
+
+                    async def pump():
+                        while True:
+                            for wire, rd in ((wire_up, reader_s), (wire_down, reader_c)):
+                                for x in (1, 2):
+                                    if wire[x]:
+                                        rd[x].feed_data(bytes(wire[x]))
+                                        wire[x].clear()
+                            await orig_sleep(0.001)
+                    pump_task = asyncio.create_task(pump())
                 server = notifier.NotifyServer()
                 server.log = _Quiet()
                 tasks = [asyncio.create_task(server.handle_notify(reader_s[w], FakeWriter(wire_down[w].extend, ("peer", w)))) for w in (1, 2)]
@@ -401,7 +421,7 @@ def _e2e_worker(payload):
                 for w in (1, 2):
                     inbox[w].put_nowait(None)
                 await settle(20)
-                for t in tasks + handlers:
+                for t in tasks + handlers + ([pump_task] if pump_task else []):
                     t.cancel()
                 await asyncio.gather(*tasks, *handlers, return_exceptions=True)
                 for w in (1, 2):
@@ -414,7 +434,7 @@ def _e2e_worker(payload):
                 asyncio.sleep = orig_sleep
 
     async def main():
-        return [await one(c) for c in chunkings]
+        return [await one(c) for c in chunkings] + [await one(c, eager=True) for c in chunkings[:1]]
 
     return asyncio.run(main())
 
@@ -466,6 +486,7 @@ def run(prop, tier, seed, **kw):
     defs = {"TD_Workers": {1, 2}, "TD_IdsOf": {1: ["a", "b"], 2: ["c"]}, "TD_K": 4}
     verdicts, vstats = tracedata.validate("Notifier_Trace", defs, e2e, batch=50)
     out.add_model(vstats)
+    chunkings = [c for p_ in payloads for c in list(p_[0]) + [["eager"] + list(p_[0][0])]]
     for k, tr in enumerate(e2e):
         out.cov["evaluations"] += 1
         out.cov["traces_validated_against_impl"] += 1
